@@ -360,7 +360,7 @@ fn stack_part(res: &mut PartResult, states: &mut vseq::States) {
 }
 
 fn parts(ctx: &Ctx) -> Vec<PartSpec> {
-    let b = if ctx.quick() { 50.0 } else { 2400.0 };
+    let b = if ctx.quick() { 150.0 } else { 2400.0 };
     vec![
         PartSpec::new("prefix", json!({"p": "prefix"})),
         PartSpec::new("filter", json!({"p": "filter"})),
